@@ -512,45 +512,75 @@ def objectChanging : List KM.Generated.CaEvent :=
    .ChildKeyRevoked, .KeyPendingToNew, .KeyPendingToActive, .KeyRollActivated,
    .KeyRollFinished, .ParentRemoved, .ResourceClassRemoved]
 
+/-- A follow-up put on the queue with `schedule` or `schedule_and_finish_existing` is pending
+afterwards whatever else is pending or running (`soonest_keeps_earlier`); with
+`schedule_missing` a *running* task of the same name would swallow it
+(`if_missing_keeps_existing`) – the follow-up of a change committed while the task runs would
+be lost.  So follow-ups must use one of the first two. -/
+def guaranteed : KM.Generated.SchedMethod → Bool
+  | .Schedule => true
+  | .ScheduleAndFinishExisting => true
+  | _ => false
+
+/-- `t` is scheduled for event/method `row` with a method that guarantees it is pending. -/
+def scheduled (t : KM.Generated.TaskKind)
+    (row : List (KM.Generated.TaskKind × KM.Generated.SchedMethod)) : Bool :=
+  row.any fun (k, m) => k == t && guaranteed m
+
+/-- What makes `guaranteed` the right notion: in the queue model the two methods leave the
+task pending in every outcome, `schedule_missing` does not when the task is running. -/
+theorem guaranteed_methods_leave_pending (s s' : QState) (name val : String) (secs : Nat)
+    (h : s' ∈ tqSchedule s name val secs ∨ s' ∈ tqScheduleFinish s name val secs) :
+    ∃ e ∈ s'.pending, e.name = name ∧ e.ts ≤ prioMillis secs := by
+  rcases h with h | h
+  · obtain ⟨⟨e, he, hn, _, ht⟩, _⟩ := soonest_keeps_earlier s s' name val _ _ (Or.inl rfl) h
+    exact ⟨e, he, hn, ht⟩
+  · obtain ⟨⟨e, he, hn, _, ht⟩, _⟩ := soonest_keeps_earlier s s' name val _ _ (Or.inr rfl) h
+    exact ⟨e, he, hn, ht⟩
+
+theorem schedule_missing_swallowed_by_running :
+    tqScheduleMissing ⟨[], [⟨5, "update_rrdp_if_needed", "v"⟩]⟩ "update_rrdp_if_needed" "v" 9 =
+      [⟨[], [⟨5, "update_rrdp_if_needed", "v"⟩]⟩] := by
+  decide
+
 /-- Repository synchronisation after an object change. -/
 theorem object_change_schedules_repo_sync :
-    ∀ e ∈ objectChanging, KM.Generated.TaskKind.SyncRepo ∈ KM.Generated.caPreSaveTasks e := by
+    ∀ e ∈ objectChanging, scheduled .SyncRepo (KM.Generated.caPreSaveTasks e) = true := by
   decide
 
 /-- Parent synchronisation after a request is created (certificate request; parent or
 repository added/updated so that requests can be made). -/
 theorem request_schedules_parent_sync :
     ∀ e ∈ [KM.Generated.CaEvent.CertificateRequested, .ParentAdded, .ParentUpdated, .RepoUpdated],
-      KM.Generated.TaskKind.SyncParent ∈ KM.Generated.caPreSaveTasks e := by
+      scheduled .SyncParent (KM.Generated.caPreSaveTasks e) = true := by
   decide
 
 /-- Revocation after a key is activated (the old key's revocation request is sent by the
 parent sync) and after a class is removed. -/
 theorem activation_and_removal_schedule_revocation :
-    KM.Generated.TaskKind.SyncParent ∈ KM.Generated.caPreSaveTasks .KeyRollActivated ∧
-    KM.Generated.TaskKind.ResourceClassRemoved ∈ KM.Generated.caPreSaveTasks .ResourceClassRemoved ∧
-    KM.Generated.TaskKind.UnexpectedKey ∈ KM.Generated.caPreSaveTasks .UnexpectedKeyFound := by
+    scheduled .SyncParent (KM.Generated.caPreSaveTasks .KeyRollActivated) = true ∧
+    scheduled .ResourceClassRemoved (KM.Generated.caPreSaveTasks .ResourceClassRemoved) = true ∧
+    scheduled .UnexpectedKey (KM.Generated.caPreSaveTasks .UnexpectedKeyFound) = true := by
   decide
 
 /-- A parent's change of a child's entitlement or key makes the (local) child sync. -/
 theorem parent_change_schedules_child_sync :
     ∀ e ∈ [KM.Generated.CaEvent.ChildUpdatedResources, .ChildKeyRevoked],
-      KM.Generated.TaskKind.SyncParent ∈ KM.Generated.caPostSaveTasks e := by
+      scheduled .SyncParent (KM.Generated.caPostSaveTasks e) = true := by
   decide
 
 /-- Trust-anchor proxy: a child request triggers the proxy–signer exchange, a signer response
 triggers publication and the children's syncs. -/
 theorem ta_proxy_followups :
-    KM.Generated.TaskKind.SyncTrustAnchorProxySignerIfPossible ∈
-      KM.Generated.taPreSaveTasks .ChildRequestAdded ∧
-    KM.Generated.TaskKind.SyncRepo ∈ KM.Generated.taPreSaveTasks .SignerResponseReceived ∧
-    KM.Generated.TaskKind.SyncParent ∈ KM.Generated.taPostSaveTasks .SignerResponseReceived := by
+    scheduled .SyncTrustAnchorProxySignerIfPossible (KM.Generated.taPreSaveTasks .ChildRequestAdded) = true ∧
+    scheduled .SyncRepo (KM.Generated.taPreSaveTasks .SignerResponseReceived) = true ∧
+    scheduled .SyncParent (KM.Generated.taPostSaveTasks .SignerResponseReceived) = true := by
   decide
 
 /-- An RRDP update after a publication (and after a publisher is removed). -/
 theorem publication_schedules_rrdp_update :
-    KM.Generated.TaskKind.RrdpUpdateIfNeeded ∈ KM.Generated.pubdMethodTasks .publish ∧
-    KM.Generated.TaskKind.RrdpUpdateIfNeeded ∈ KM.Generated.pubdMethodTasks .remove_publisher := by
+    scheduled .RrdpUpdateIfNeeded (KM.Generated.pubdMethodTasks .publish) = true ∧
+    scheduled .RrdpUpdateIfNeeded (KM.Generated.pubdMethodTasks .remove_publisher) = true := by
   decide
 
 /-- The recurring maintenance tasks. -/
